@@ -31,6 +31,7 @@ import WntrModel.Model.EvalShape
 import WntrModel.Gen.EvaluatorShape
 import WntrModel.Gen.OverloadShape
 import WntrModel.Lemmas.AmlNan
+import WntrModel.Lemmas.AmlBuild
 import Mathlib.Analysis.Normed.Field.Lemmas
 
 namespace Wntr.Aml
@@ -748,5 +749,41 @@ theorem overloads_reflected_are_model (x : Rat) (b : Expr) :
          simp [reflOf, Gen.overloads, OverloadShape.applyRefl, OverloadShape.pick, binOfName, sBin, sAdd, sSub, sMul, sDiv, sPow,
            h0, h1, h0', h1']
          try (cases b <;> simp [sBinObj, sNumNum, ratBin, h0]))
+
+
+/-! ## 15. the structural hypotheses hold for every list the overloads build -/
+
+/-- **built_lists_wellFormed.** `wellFormed` — hypothesis of `getRpn_total`, `reverseSd_is_derivative`, … — is a property
+of the CONSTRUCTION: every operator list the overloads build (`ops(self) ++ ops(other) ++ [new operator]`, `if_else`,
+`inequality`, unary functions) from well-formed operands is well formed; leaves have the empty list. -/
+theorem built_lists_wellFormed :
+    (∀ op a b id, wellFormed a.ops = true → wellFormed b.ops = true → wellFormed (mkBin op a b id).ops = true) ∧
+    (∀ op a id, wellFormed a.ops = true → wellFormed (mkUn op a id).ops = true) ∧
+    (∀ a lb ub id, wellFormed a.ops = true → wellFormed (mkIneq a lb ub id).ops = true) ∧
+    (∀ c t e id, wellFormed c.ops = true → wellFormed t.ops = true → wellFormed e.ops = true →
+      wellFormed (mkIfElse c t e id).ops = true) :=
+  ⟨mkBin_wellFormed, mkUn_wellFormed, mkIneq_wellFormed, mkIfElse_wellFormed⟩
+
+/-- **built_lists_consistent.** `consistent` (the same object has the same fields wherever it occurs) likewise: operator
+objects live on a heap (identity ↦ fields); a list whose entries are heap objects is consistent, and every overload
+allocates its new operator at a fresh identity and keeps the operands' lists on the heap. -/
+theorem built_lists_consistent (H : Heap) :
+    (∀ l, FromHeap H l → consistent l) ∧
+    (∀ op a b id, FromHeap H a.ops → FromHeap H b.ops → H id = none →
+      FromHeap (H.alloc id (.bin op a.last b.last)) (mkBin op a b id).ops) ∧
+    (∀ op a id, FromHeap H a.ops → H id = none → FromHeap (H.alloc id (.un op a.last)) (mkUn op a id).ops) ∧
+    (∀ a lb ub id, FromHeap H a.ops → H id = none →
+      FromHeap (H.alloc id (.ineq a.last lb ub)) (mkIneq a lb ub id).ops) ∧
+    (∀ c t e id, FromHeap H c.ops → FromHeap H t.ops → FromHeap H e.ops → H id = none →
+      FromHeap (H.alloc id (.ifElse c.last t.last e.last)) (mkIfElse c t e id).ops) :=
+  ⟨fun _ h => h.consistent, mkBin_fromHeap H, mkUn_fromHeap H, mkIneq_fromHeap H, mkIfElse_fromHeap H⟩
+
+/-- non-vacuity: `(e + 1) * e` with `e = x + y` built by the constructors is the list `exRepeat2` -/
+example :
+    let x : PyExpr := ⟨[], .var 0⟩
+    let y : PyExpr := ⟨[], .var 1⟩
+    let one : PyExpr := ⟨[], .flt 7 (.fin 1)⟩
+    let e := mkBin .add x y 0
+    (mkBin .mul (mkBin .add e one 1) e 2).ops = exRepeat2 := by decide
 
 end Wntr.Aml
